@@ -130,6 +130,13 @@ def run(chk):
                      (("def", d), ("for", "args", (("cfg", "acc1", pa),))),
                      (("cfg", "acc1", 0), ("for", "c01", (("def", d), ("cfg", "acc1", pa), ("cfg", "acc1", 3))))]
             cases += [(p, dd) for p in extra for dd in (True, False)]
+    # a launch nested in a conditional in front of the first setup of a loop body: it must keep seeing the registers of
+    # the previous iteration (or of the code in front of the loop), not those of the setup behind it
+    for bk in ("args", "c01", "k13", "k03s2"):
+        for pa, pb in ((0, 3), (1, 5), (3, 0), (2, 4)):
+            for eb in (None, (("rl", "acc1"),)):
+                cases += [((("cfg", "acc1", pa), ("for", bk, (("if", 0, (("rl", "acc1"),), eb), ("cfg", "acc1", pb)))), dd) for dd in (True, False)]
+                cases += [((("cfg", "acc1", pa), ("for", bk, (("if", 1, (("rl", "acc1"),), eb), ("cfg", "acc1", pb), ("cfg", "acc1", pa)))), dd) for dd in (True, False)]
     chk.add_results("overlap_vs_input", pmap(case_prog, cases, kw=dict(K=K), chunks=4))
     chk.bounds = dict(programs=len(cases), unroll_K=K, exhaustive_part=n_exh)
     chk.outside = ["programs outside the grammar", f"more than {K} iterations of a loop"]
